@@ -223,7 +223,7 @@ def gen_C14(seed, tier):
         lines = []
         nops = g.r.randint(2, 9)
         fail_at = g.r.randint(0, nops)       # position of the injected failing call
-        fail_kind = g.r.choice(["dup", "dup", "dupfixed", "dupmulti", "dupcustom", "undef"])
+        fail_kind = g.r.choice(["dup", "dup", "dupfixed", "dupmulti", "dupcustom", "undef", "zeromass"])
         names = []
         used = 0
         seq = []
@@ -231,7 +231,12 @@ def gen_C14(seed, tier):
             if k == fail_at:
                 # the failing call
                 parent = g.r.choice(mb.ids)
-                if fail_kind == "undef" or not names:
+                if fail_kind == "zeromass":
+                    # rejected by Body::Join: a massless body with rotational inertia fixed to a massless parent
+                    # (the base): "cannot join bodies as both have zero mass"
+                    mb.lines.append("add 0 %s T Fixed %s %s" % (G.frs(g.frame()), G.frs([F(0)] + g.vec(-1, 1) + g.inertia() + [0]), "zm%d" % k))
+                    seq.append("zeromass")
+                elif fail_kind == "undef" or not names:
                     mb.lines.append("add %d %s U %s %s" % (parent, G.frs(g.frame()), G.frs(g.body()), "zz%d" % k))
                     seq.append("undef")
                 else:
